@@ -220,6 +220,18 @@ def make_scenarios(rng, tier, seed):
             data = data * np.array([10.0 ** rng.choice([-12, -9, -7, -5, -3, 0, 3, 6, 9, 12]) for _ in range(nch)])[:, None]
         out.append({'kind': 'welch', 'data': data.tolist(), 'NFFT': NFFT, 'nov': nov, 'win': wk, 'hseed': rng.randint(0, 10 ** 6),
                     'winvals': None if wk == 'hann' else win_vals(wk, NFFT, nr), 'Fs': Fs, 'band_u': [rng.random() for _ in range(8)]})
+    # both sides of the guards in the anchored code (class L7): CoherenceAnalyzer warns when n < NFFT + n_overlap ("all coherence
+    # values will be 1"), the true single-window condition is n < 2*NFFT - n_overlap; they differ as soon as n_overlap != NFFT/2
+    for s in range(12 if big else 4):
+        NFFT = rng.choice([16, 32, 64])
+        nov = rng.choice([NFFT // 2 + 1, 3 * NFFT // 4, NFFT - 2, NFFT - 1, NFFT // 4, NFFT // 2])
+        a_, b_ = NFFT + nov, 2 * NFFT - nov
+        n = max(NFFT // 2 + 1, rng.choice([a_ - 1, a_, a_ + 1, b_ - 1, b_, b_ + 1, (a_ + b_) // 2, (a_ + b_) // 2 + 1]))
+        if NFFT - nov < 3 and n > NFFT + 40:
+            n = NFFT + 40                 # keep the number of segments of the naive model moderate
+        nch = rng.choice([2, 3, 3])
+        out.append({'kind': 'welch', 'data': gen_data(nr, nch, n).tolist(), 'NFFT': NFFT, 'nov': nov, 'win': 'hann', 'hseed': rng.randint(0, 10 ** 6),
+                    'winvals': None, 'Fs': rng.choice([1.0, 2.0, 10.0]), 'band_u': [rng.random() for _ in range(8)], 'guard': True})
     for s in range(14 if big else 5):
         nch = rng.choice([2, 3, 4, 4, 5])
         n = rng.choice([64, 100, 128, 255] if not big else [64, 128, 255, 512, 1024])
@@ -336,6 +348,8 @@ def impl_results(sc):
             out[name] = run(lambda: np.array(getattr(C, name)))
         return out
     R['an'] = run(an)
+    if sc['kind'] == 'welch':
+        R['retarget'] = run(lambda: retarget_data(sc, X))
     if sc['kind'] == 'welch' and X.shape[1] <= 512:       # the model recomputes every cached slice with the naive DFT
         R['cache'] = run(lambda: cache_case_data(sc, X, R))
     return R
@@ -367,6 +381,45 @@ def mt_reads(sc, X):
     df = f.df
     return {'order': order, 'now': now, 'end': end, 'c0': c0.ravel(), 'var': var.ravel(), 'dof': float(2 * df - 2),
             'tlo': float(dist.t.ppf(f.alpha / 2, df - 1)), 'thi': float(dist.t.ppf(1 - f.alpha / 2, df - 1))}
+
+
+def version_data(X, v):
+    """the samples of data version v (0 = the scenario's own data): channel 0 replaced by seeded noise of the same scale"""
+    if v == 0:
+        return np.array(X, dtype=float)
+    Y = np.array(X, dtype=float, copy=True)
+    Y[0] = np.random.RandomState(v).randn(Y.shape[1]) * (np.std(Y[0]) or 1.0)
+    return Y
+
+
+def retarget_data(sc, X):
+    """a seeded program of reads / in-place data changes / set_input (with other objects and with the object already held)
+    on ONE CoherenceAnalyzer; every read is classified by the data version whose function-level coherency it equals"""
+    import random
+    import nitime.timeseries as ts
+    from nitime.analysis import CoherenceAnalyzer
+    A = tsa()
+    r = random.Random('retarget/%d' % sc.get('hseed', 0))
+    progs = [['r', 'm:0:1', 's:0', 'r'], ['r', 's:1', 'r', 'm:1:2', 'r', 's:1', 'r'], ['m:0:3', 'r', 'm:0:4', 'r', 's:0', 'r', 's:0', 'r'],
+             ['r', 's:1', 'm:0:5', 's:0', 'r', 'm:1:6', 's:1', 'r', 'r']]
+    prog = r.choice(progs)
+    objs = {0: ts.TimeSeries(version_data(X, 0), sampling_rate=sc['Fs']), 1: ts.TimeSeries(version_data(X, 1000), sampling_rate=sc['Fs'])}
+    versions = {0, 1000} | {int(e.split(':')[2]) for e in prog if e.startswith('m:')}
+    ref = {v: A.coherency(version_data(X, v), explicit_method(sc))[1] for v in versions}
+    C = CoherenceAnalyzer(objs[0], method=explicit_method(sc))
+    getter = 'coherency'          # (with a single window the coherence is 1 for every data version: not a classifier)
+    out = []
+    for e in prog:
+        t = e.split(':')
+        if t[0] == 'm':
+            objs[int(t[1])].data[...] = version_data(X, int(t[2]))
+        elif t[0] == 's':
+            C.set_input(objs[int(t[1])])
+        else:
+            val = np.array(getattr(C, getter))
+            hit = [v for v in sorted(versions) if same(val, ref[v] if getter == 'coherency' else np.abs(ref[v]) ** 2, 1e-9)]
+            out.append(str(hit[0]) if len(hit) == 1 else '?')
+    return {'prog': prog, 'out': out}
 
 
 def cache_case_data(sc, X, R):
@@ -506,6 +559,9 @@ def cases_of(sc, R, si):
                     line = 'C08 mtcsd %s %s %d 1 %d %d %s %s %s %s' % (what, f2x(sc['Fs']), n, nch, len(eig), flist(dpss.reshape(-1)),
                                                                       'a' if adaptive else 'f', flist(wv), clist(X.reshape(-1)))
                     out.append(Case(line, conv(r[1]), '%s/joint/%s' % (pre, what), cmp=cmp_vec, meta={'sc': si, 'obs': what}))
+    q = R.get('retarget')
+    if isinstance(q, dict):
+        out.append(Case('C08 retarget 0 ' + ' '.join(q['prog']), 'ok ' + ','.join(q['out']), 'welch/analyzer/set-input-program', meta={'sc': si, 'obs': 'an'}))
     q = R.get('cache')
     if sc['kind'] == 'welch' and isinstance(q, dict) and q['nb'] > 0:
         nov = 'dfunc' if sc['nov'] is None else str(sc['nov'])
@@ -897,6 +953,31 @@ def reuse_checks(sc, bad):
     variants = [('explicit-method', lambda: explicit_method(sc), Fs)]
     if sc['kind'] == 'welch':
         variants += [('default-method', lambda: None, Fs), ('default-method', lambda: None, 2.0 * Fs)]
+    # class L8: set_input with the very TimeSeries object the analyzer already holds, after its data were changed IN PLACE
+    for vname, mk in [('explicit-method', lambda: explicit_method(sc))] + ([('default-method', lambda: None)] if sc['kind'] == 'welch' else []):
+        m_exp = mk() or {'this_method': 'welch', 'Fs': Fs}
+        want = run(lambda: (A.get_spectra(X2, dict(m_exp))[0], A.coherency(X2, dict(m_exp))[1], A.coherence(X2, dict(m_exp))[1]))
+        if isinstance(want, str):
+            continue
+
+        def go_same():
+            T = ts.TimeSeries(X.copy(), sampling_rate=Fs)
+            C = CoherenceAnalyzer(T, method=mk())
+            names = ('coherency', 'coherence', 'phase', 'delay', 'spectrum', 'frequencies') + (('coherence_partial',) if X.shape[0] >= 3 else ())
+            for a in names:
+                getattr(C, a)
+            T.data[...] = X2                      # same object, new samples
+            C.set_input(T)
+            return {a: np.array(getattr(C, a)) for a in names}
+        got = run(go_same)
+        if isinstance(got, str):
+            bad('%s/analyzer-reuse/%s/same-object/raises' % (pre, vname), 'CoherenceAnalyzer.set_input with the TimeSeries it already holds raised ' + got, 'an')
+        else:
+            for a, w in (('frequencies', want[0]), ('coherency', want[1]), ('coherence', want[2])):
+                if not same(got[a], w):
+                    bad('%s/analyzer-reuse/%s/same-object/stale-%s' % (pre, vname, a),
+                        'CoherenceAnalyzer.set_input(T) with the TimeSeries object it already holds, after T.data was changed in place: .%s still describes the old samples' % a, 'an')
+            judge_values('%s/analyzer-reuse/%s/same-object' % (pre, vname), got, bad, 'an')
     for vname, mk, Fs2 in variants:
         m_exp = mk()
         if m_exp is None:
@@ -931,6 +1012,22 @@ def mt_reuse_checks(sc, bad):
     from nitime.analysis import MTCoherenceAnalyzer
     X = np.array(sc['data'], dtype=float)
     X2 = partner(X)[:, :X.shape[1] - 7]
+
+    def go_same():
+        T = ts.TimeSeries(X.copy(), sampling_rate=sc['Fs'])
+        C = MTCoherenceAnalyzer(T, adaptive=sc['adaptive'])
+        for a in ('coherence', 'confidence_interval', 'weights', 'spectra'):
+            getattr(C, a)
+        T.data[...] = partner(X)
+        C.set_input(T)
+        return np.array(C.coherence)
+    got = run(go_same)
+    fresh = run(lambda: np.array(MTCoherenceAnalyzer(ts.TimeSeries(partner(X), sampling_rate=sc['Fs']), adaptive=sc['adaptive']).coherence))
+    if not isinstance(fresh, str):
+        if isinstance(got, str):
+            bad('mt-analyzer/reuse/same-object/raises', 'MTCoherenceAnalyzer.set_input with the TimeSeries it already holds raised ' + got, 'mta')
+        elif not same(got, fresh):
+            bad('mt-analyzer/reuse/same-object/stale-coherence', 'MTCoherenceAnalyzer.set_input(T) with the object it already holds, after T.data changed in place: .coherence is stale', 'mta')
     for order in ('values-first', 'frequencies-first'):
         names = ('coherence', 'frequencies') if order == 'values-first' else ('frequencies', 'coherence')
 
@@ -1198,6 +1295,38 @@ def cache_path_checks(sc, R, bad):
         if not same(np.abs(S[0]) ** 2, S[1], 1e-9):
             bad('welch/sparse-analyzer/coherency/normsq-ne-coherence', 'SparseCoherenceAnalyzer: |coherency|^2 != coherence', 'an')
         getter_history('welch/sparse-analyzer', mkS, GETTERS['sparse-analyzer'], sc.get('hseed', 0), bad, 'an', square=False, orders=1)
+
+        def sparse_same():
+            Tt = ts.TimeSeries(X.copy(), sampling_rate=sc['Fs'])
+            a = SparseCoherenceAnalyzer(Tt, ij=ij, method=meth(), lb=lb, ub=ub, prefer_speed_over_memory=psom, scale_by_freq=sbf)
+            for g in ('coherency', 'coherence', 'spectrum', 'delay'):
+                getattr(a, g)
+            Tt.data[...] = partner(X)
+            a.set_input(Tt)
+            return np.array(a.coherency)
+        got = run(sparse_same)
+        fresh = run(lambda: np.array(SparseCoherenceAnalyzer(ts.TimeSeries(partner(X), sampling_rate=sc['Fs']), ij=ij, method=meth(), lb=lb, ub=ub,
+                                                              prefer_speed_over_memory=psom, scale_by_freq=sbf).coherency))
+        if not isinstance(fresh, str) and (isinstance(got, str) or not same(got, fresh)):
+            bad('welch/sparse-analyzer/reuse/same-object/stale-coherency', 'SparseCoherenceAnalyzer.set_input(T) with the object it already holds, after T.data changed in place: '
+                '.coherency is stale' + (' (%s)' % got if isinstance(got, str) else ''), 'an')
+    # class L8: the seed series is a strided VIEW of the target's own data (seed rows 0, 2, … of the target)
+    Xt = X.copy()
+    view = Xt[0::2]
+    V = run(lambda: np.array(SeedCoherenceAnalyzer(ts.TimeSeries(view, sampling_rate=sc['Fs']), ts.TimeSeries(Xt, sampling_rate=sc['Fs']), method=meth(),
+                                                    lb=lb, ub=ub, prefer_speed_over_memory=psom, scale_by_freq=sbf).coherency))
+    if isinstance(V, str):
+        bad('welch/seed-analyzer/view-seed/raises', 'SeedCoherenceAnalyzer with a seed that is a view of the target data raised ' + V, 'an')
+    elif V.size and np.all(np.isfinite(np.abs(V))):
+        Vc = V.reshape((view.shape[0], nch, -1))
+        li_, ui_ = band_of(fb)
+        for k in range(view.shape[0]):
+            want = cy_full[2 * k, :, li_:ui_]
+            if want.shape == Vc[k].shape and not same(Vc[k], want, 1e-9):
+                bad('welch/seed-analyzer/view-seed/ne-function-level', 'SeedCoherenceAnalyzer whose seed is a strided view of the target data: row %d differs from the function-level coherency of channel %d' % (k, 2 * k), 'an')
+                break
+        if not np.array_equal(Xt, X):
+            bad('welch/seed-analyzer/view-seed/data-modified', 'SeedCoherenceAnalyzer modified the data shared by seed and target', 'an')
     # --- SeedCoherenceAnalyzer: several seeds against ONE target cache; seeds = scaled copies of targets and a mixture
     nseed = r.choice([1, 2, 3, 3])
     gains = [r.choice([-3.0, 0.5, 1e-6, 1e6, -1e-12, 1e12, 1.0]) for _ in range(nseed)]
